@@ -289,6 +289,12 @@ fn print_case(sc: &Scenario, rec: &RunRecord, pubkey: &[u8]) {
         if done.iter().any(|h| tp <= *h && *h < tp + 2) { flags |= 8; }
         flags |= 4;   // delayed write: compared without send times
     }
+    // bit 4: the client's shared secret was not a 16-byte AES key, and the server nevertheless wrote something after
+    // the Encryption Response (a login cannot go on under a key the client does not have)
+    if let (Some(ss), Some(n0)) = (&rec.shared_secret, rec.out_len_at_enc_response) {
+        let total: usize = rec.wire_out.iter().map(|c| c.1.len()).sum();
+        if ss.len() != 16 && total > n0 { flags |= 16; }
+    }
     let biggest_in = rec.raw_in.iter().map(|x| x.1.len()).max().unwrap_or(0);
     let mut segs: Vec<String> = rec.raw_in.iter().map(|(t, b)| format!("({}, Some {})", t, g_hex(b))).collect();
     if let Some(t) = rec.eof_at { segs.push(format!("({}, None)", t)); }
